@@ -1247,6 +1247,8 @@ class C16(ValProp):
             return out
         if o[1] != mo['s.root'] or o[2] != mo['s.root'] or o[3] != '11':
             out.append(F('prop', 'from_obj(to_obj) / via JSON', py.get('p.obj'), mo['s.root']))
+        if py.get('p.obj2') != '%s/%s' % (mo['s.root'], mo['s.root']):
+            out.append(F('prop', 'a second import (after the results of earlier imports were mutated) differs from the original', py.get('p.obj2'), mo['s.root']))
         if 's.obj' in mo and py.get('p.objjson') != mo['s.obj']:
             out.append(F('prop', 'exported object shape', py.get('p.objjson'), mo['s.obj']))
         if 'i.fromobj' in mo and mo['i.fromobj'] != show(case[2]):
@@ -1732,8 +1734,13 @@ class C19(HistProp):
             v = g.val(t, 12)
             sg = StoreGen(g, t, v)
             out.append(show(['store', t, v] + sg.history(g.rng.choice([6, 15, 30]))))
-        # tree level against the heap model: exact hash-call counts and number of fresh pair nodes
+        # mutations of views over lazily loaded backings: the untouched lazily loaded siblings stay the same objects
         r = g.rng
+        for _ in range(self.n(tier) // 3):
+            t, v = self.tv(g, tier, mutable=True)
+            hist, _ = g.ops(t, v, r.choice([2, 5, 10]))
+            out.append(show(['virt', t, v] + [o for o in hist if o[0] in ('set', 'app', 'pop', 'chg')] + [['root']]))
+        # tree level against the heap model: exact hash-call counts and number of fresh pair nodes
         for _ in range(self.n(tier)):
             tr = g.tree(r.choice([1, 2, 3, 4, 5]), r.choice([0.1, 0.3]))
             maxg = 1 << (g.tree_depth(tr) + 2)
@@ -1758,6 +1765,16 @@ class C19(HistProp):
                     worse = len(pa) >= 3 and len(pb) >= 3 and pa[2].isdigit() and pb[2].isdigit() and int(pa[2]) > int(pb[2])
                     out.append(F('prop' if worse or (len(pa) == 5 and len(pb) == 5 and (pa[1] != '0' or int(pa[4]) > int(pb[4]))) else 'corr',
                                  'hash calls first root / second root / after write / fresh pairs: setter(%s, expand=%s)' % (c[1], c[2]), a, b))
+            return out
+        if case[0] == 'virt':
+            if py.get('p.skip') or py.get('p.ctor') == 'err':
+                return out
+            for i, op in enumerate(case[3:]):
+                bump(stats, 'ops', 'virt:' + op[0])
+                vs = py.get('%d.vshare' % i)
+                if vs is not None and vs not in ('ok:0', 'err:nav', 'err:index', 'err'):
+                    out.append(F('prop', 'after op %d %s on a view over a lazily loaded backing, untouched lazily loaded nodes are not the same objects as before' % (i, show(op)), vs, 'ok:0'))
+                    break
             return out
         if case[0] == 'store':
             for i, op in enumerate(case[3:]):
